@@ -144,8 +144,10 @@ class Ctx:
         ev = {"property_id": prop, "tier": self.tier, "seed": self.seed, "level": "proof",
               "coverage": cov, "assumptions": self.assumptions, "wall_s": round(wall, 2),
               "violations": n_viol + (1 if (broken and not n_viol) else 0)}
-        os.makedirs(os.path.join(VERIF, "evidence"), exist_ok=True)
-        with open(os.path.join(VERIF, "evidence", prop + ".json"), "w") as f:
+        # runs against a scratch copy of the repository (mutation self-tests) are not evidence for /repo
+        evdir = os.path.join(VERIF, "evidence") if os.path.realpath(REPO) == "/repo" else os.path.join(SCRATCH_ROOT, "bobv-mutant-evidence")
+        os.makedirs(evdir, exist_ok=True)
+        with open(os.path.join(evdir, prop + ".json"), "w") as f:
             json.dump(ev, f, indent=1, sort_keys=True, default=repr)
         for l in out_lines:
             print(l)
